@@ -21,6 +21,7 @@
 #include <limits>
 #include <type_traits>
 #include <unistd.h>
+#include <sys/time.h>
 
 #ifndef VK_NO_AVEL
 #include <avel/Avel.hpp>
@@ -171,6 +172,15 @@ inline bool want(const char* prop, const char* type, const char* op) {
     return true;
 }
 
+// per-cell CPU-time budget (see cpu_watchdog below): generous, load-independent, and only there so that a
+// non-terminating operation becomes a "hang" record naming its cell instead of a job that never ends
+inline void cell_watchdog(bool on) {
+    static long budget = -1;
+    if (budget < 0) { const char* e = std::getenv("VK_CELL_CPU_BUDGET"); budget = e ? std::atol(e) : (opt().thorough ? 8 * 3600 : 1800); }
+    struct itimerval it; std::memset(&it, 0, sizeof it); it.it_value.tv_sec = on ? budget : 0;
+    setitimer(ITIMER_VIRTUAL, &it, nullptr);
+}
+
 inline bool begin_cell(const char* prop, const char* type, const char* op) {
     if (!want(prop, type, op)) return false;
     Cell& c = cell();
@@ -178,6 +188,7 @@ inline bool begin_cell(const char* prop, const char* type, const char* op) {
     c.prop = prop; c.type = type; c.op = op; c.active = true;
     std::fprintf(logf(), "{\"ev\":\"begin\",\"prop\":\"%s\",\"type\":\"%s\",\"op\":\"%s\"}\n", prop, type, op);
     std::fflush(logf());
+    cell_watchdog(true);
 #ifdef VK_SAN
     std::fprintf(stderr, "@@begin %s %s %s\n", prop, type, op);
     std::fflush(stderr);
@@ -208,6 +219,7 @@ inline void end_cell() {
         vbc.c_str(), smp.c_str());
     std::fflush(logf());
     c.active = false;
+    cell_watchdog(false);
 }
 
 // an api-missing event (operation not provided by this type in this configuration)
@@ -270,6 +282,24 @@ inline void on_signal(int sig, siginfo_t* si, void*) {
     siglongjmp(t.env, 1);
 }
 
+// CPU-time watchdog: ITIMER_VIRTUAL counts user CPU time of this (single-threaded) process, so it is independent of
+// machine load.  Inside a guarded call the expiry is reported like a trap (sig == SIGVTALRM, recorded as kind "hang");
+// anywhere else it writes a "hang" violation for the current cell and ends the process.
+inline void cpu_watchdog(unsigned secs) {
+    struct itimerval it; std::memset(&it, 0, sizeof it); it.it_value.tv_sec = secs;
+    setitimer(ITIMER_VIRTUAL, &it, nullptr);
+}
+inline void on_vtalrm(int sig, siginfo_t*, void*) {
+    TrapCtx& t = trap();
+    if (t.armed) { t.sig = sig; t.addr = nullptr; t.armed = 0; siglongjmp(t.env, 1); }
+    Cell& c = cell();
+    std::fprintf(logf(), "{\"ev\":\"viol\",\"kind\":\"hang\",\"prop\":\"%s\",\"type\":\"%s\",\"op\":\"%s\",\"cls\":0,\"lane\":-1,"
+                 "\"in\":\"after %" PRIu64 " cases\",\"got\":\"cell exceeded its CPU-time budget\",\"exp\":\"termination\"}\n",
+                 c.prop.c_str(), c.type.c_str(), c.op.c_str(), c.cases);
+    std::fflush(logf());
+    _exit(86);
+}
+
 inline void install_traps() {
     static char altstack[1 << 16];
     stack_t ss; ss.ss_sp = altstack; ss.ss_size = sizeof altstack; ss.ss_flags = 0;
@@ -283,11 +313,13 @@ inline void install_traps() {
     sigaction(SIGBUS, &sa, nullptr);
     sigaction(SIGFPE, &sa, nullptr);
     sigaction(SIGILL, &sa, nullptr);
+    sa.sa_sigaction = on_vtalrm;
+    sigaction(SIGVTALRM, &sa, nullptr);
 }
 
 inline const char* signame(int s) {
     switch (s) { case SIGSEGV: return "SIGSEGV"; case SIGBUS: return "SIGBUS"; case SIGFPE: return "SIGFPE";
-                 case SIGILL: return "SIGILL"; default: return "SIG?"; }
+                 case SIGILL: return "SIGILL"; case SIGVTALRM: return "CPU-WATCHDOG"; default: return "SIG?"; }
 }
 
 // Run `body` with traps captured.  Returns true if it completed, false if a signal was raised
